@@ -16,11 +16,11 @@ Variable ueqb : U -> U -> bool.
 Hypothesis ueqb_spec : forall a b, ueqb a b = true <-> a = b.
 Variable ustr : U -> str.
 Variable strip : bool.
-(* the tree under check has the repairs (regenerated probes, translator/tables_c04.py) *)
-Hypothesis P_loose : loose_exit_rows = true.
-Hypothesis P_cases : pairs_follow_cases = true.
-Hypothesis P_save : split_rows_carry_save_name = true.
-Hypothesis P_group : group_split_without_cases_exports = true.
+Hypothesis Hrep : repaired.
+Notation P_loose := (rep_loose Hrep).
+Notation P_cases := (rep_cases Hrep).
+Notation P_save := (rep_save Hrep).
+Notation P_group := (rep_group Hrep).
 
 Lemma ueqb_refl' u : ueqb u u = true.
 Proof. apply ueqb_spec. reflexivity. Qed.
